@@ -17,6 +17,8 @@ class TD7(OffPolicyCont):
         "q_target": "critic_target", "policy_target": "actor_target", "fixed_embedding_target": "fixed_embedding_target",
     }
     may_stay = ("actor_checkpoint", "fixed_embedding_checkpoint")
+    # modules train_td7 clones afresh at the start of EVERY call (they are not parameters of the routine)
+    internal_comps = ("fixed_embedding", "fixed_embedding_target", "actor_checkpoint", "fixed_embedding_checkpoint")
     target_pairs = (("actor_target", "actor"), ("critic_target", "critic"), ("fixed_embedding", "embedding"),
                     ("fixed_embedding_target", "embedding"), ("fixed_embedding_target", "fixed_embedding"),
                     ("actor_checkpoint", "actor"), ("fixed_embedding_checkpoint", "fixed_embedding"))
@@ -198,7 +200,7 @@ class MRQ(OffPolicyCont):
         ls = c["learning_starts"]
         if k < ls:
             return []
-        gs = run.start_step
+        gs = es.get("call_start", run.start_step)  # global_step of the call this iteration belongs to (resume chains)
         e = max(0, gs - ls) + (k - max(gs, ls)) + 1
         out = []
         if e % c["target_delay"] == 0:
